@@ -5,6 +5,8 @@ import itertools
 OPS = ("Select", "Where", "SelectMany", "sel")  # sel = a wrapper method that forwards its argument to Select
 PARAMS = ("e", "f")
 STYLES = ("one", "brk", "par", "cmt", "str", "nest", "fstr", "coll", "fstr0", "fstr1", "uni", "clo")
+# f-strings whose literal pieces are a single, unmatched bracket character (python >= 3.12 tokenizes the pieces separately)
+FSTRING_PIECE_STYLES = ("fstr2", "fstr3", "fstr4")
 
 
 def lam(p, k, op, style):
@@ -33,6 +35,12 @@ def lam(p, k, op, style):
         return f"lambda {p}: {p}.m{k}{cmp_[:3]}f\"({{{p}.x}})\""
     if style == "fstr1":
         return f"lambda {p}: {p}.m{k}{cmp_[:3]}f\"{{{p}.x}},{{{p}.y}}\""
+    if style == "fstr2":
+        return f"lambda {p}: {p}.m{k}.s(f\"{{{p}.x}}]\"){cmp_}"
+    if style == "fstr3":
+        return f"lambda {p}: {p}.m{k}.s(f\"({{{p}.x}}\"){cmp_}"
+    if style == "fstr4":
+        return f"lambda {p}: {p}.m{k}.s(f\"{{{p}.x}}}}}}{{{p}.y}}[\", 1){cmp_}"
     if style == "coll":
         return f"lambda {p}: {p}.m{k}.s([{p}.a, {p}.b], {{'k': {p}.c, 'l': ({p}.d, 1)}})[1, 2]{cmp_}"
     if style == "nest":
@@ -93,6 +101,14 @@ def in_context(stmt, ctx):
     if ctx == "nested-def":
         return ("def outer():\n    def inner():\n        " + ind(8) + "\n        return r\n    return inner()\n"
                 "RESULT = outer()\n")
+    if ctx in ("nested-def-namesake-below", "nested-def-namesake-above"):
+        # the functions passed by name are nested two deep; the module defines functions of the same names (other bodies)
+        others = "def f1(q): return q.zz8 + 5\ndef f2(q): return q.zz9 > 5\n"
+        body = "def outer():\n    def inner():\n        " + ind(8) + "\n        return r\n    return inner()\n"
+        return (body + others if ctx.endswith("below") else others + body) + "RESULT = outer()\n"
+    if ctx == "method-namesake-below":
+        others = "def f1(q): return q.zz8 + 5\ndef f2(q): return q.zz9 > 5\n"
+        return "class K:\n    def build(self):\n        " + ind(8) + "\n        return r\n" + others + "RESULT = K().build()\n"
     if ctx == "oneline-def":
         if "\n" in stmt or not stmt.startswith("r = "):
             return None
@@ -147,7 +163,8 @@ def enumerate_three_calls(ops, params, contexts):
     return out
 
 
-def enumerate_named_functions(contexts=("module", "def", "method", "if-block", "try-block", "module-eof")):
+def enumerate_named_functions(contexts=("module", "def", "method", "if-block", "try-block", "module-eof", "nested-def-namesake-below",
+                                        "nested-def-namesake-above", "method-namesake-below")):
     """one-line / two-line / documented defs passed BY NAME, with neighbours that could be confused with them"""
     out = []
     forms = {
